@@ -725,26 +725,33 @@ impl TieredEngine {
         &self,
         doc_id: u64,
     ) -> Option<(Vec<f32>, std::collections::HashMap<String, String>)> {
-        if let Some(metadata) = self.cold_tier.fetch_metadata(doc_id) {
+        // Vector, metadata and coherence token are read under ONE cold-tier lock so that both
+        // halves of the answer belong to the same write even when an overwrite races with us.
+        if let Some((canonical_embedding, metadata, canonical_coherence)) = self
+            .cold_tier
+            .bulk_fetch_with_coherence(&[doc_id])
+            .pop()
+            .flatten()
+        {
             if let Some((embedding, coherence)) = self.hot_tier.get_with_coherence(doc_id) {
+                if coherence == canonical_coherence
+                    && embedding_matches_token(&embedding, coherence)
+                {
+                    return Some((embedding, metadata));
+                }
                 match self.canonical_vector_state(
                     doc_id,
                     &embedding,
                     coherence,
                     "document-with-metadata hot-tier hit",
                 ) {
-                    CanonicalVectorState::Match => return Some((embedding, metadata)),
                     CanonicalVectorState::TokenMismatch | CanonicalVectorState::LocalCorruption => {
                         self.discard_stale_hot_mirror(doc_id, "document-with-metadata hot-tier hit")
                     }
-                    CanonicalVectorState::Missing => {}
+                    CanonicalVectorState::Match | CanonicalVectorState::Missing => {}
                 }
             }
-            if let Some((embedding, _coherence)) =
-                self.cold_tier.fetch_document_with_coherence(doc_id)
-            {
-                return Some((embedding, metadata));
-            }
+            return Some((canonical_embedding, metadata));
         }
 
         if self.hot_tier.exists(doc_id) {
@@ -966,15 +973,22 @@ impl TieredEngine {
                     "bulk query hot-tier hit",
                 ) {
                     CanonicalVectorState::Match => {
-                        if let Some(canonical_metadata) = self.cold_tier.fetch_metadata(doc_id) {
-                            results[i] =
-                                Some((embedding, canonical_metadata, PointQueryTier::HotTier));
-                        } else {
-                            warn!(
-                                doc_id,
-                                "bulk query found canonical vector without canonical metadata; falling back to cold tier"
-                            );
-                            missing_indices.push(i);
+                        // Pair the mirror's vector only with metadata read atomically with the
+                        // same coherence token; a racing overwrite otherwise yields the vector
+                        // of one write with the metadata of another.
+                        match self
+                            .cold_tier
+                            .bulk_fetch_with_coherence(&[doc_id])
+                            .pop()
+                            .flatten()
+                        {
+                            Some((_, canonical_metadata, canonical_coherence))
+                                if canonical_coherence == coherence =>
+                            {
+                                results[i] =
+                                    Some((embedding, canonical_metadata, PointQueryTier::HotTier));
+                            }
+                            _ => missing_indices.push(i),
                         }
                     }
                     CanonicalVectorState::TokenMismatch | CanonicalVectorState::LocalCorruption => {
